@@ -28,6 +28,7 @@ KINDS = ("tools", "prompts", "resources", "templates")
 NOTIF_OF = {"tools": "tools", "prompts": "prompts", "resources": "resources", "templates": "resources"}
 WANT_ALL = list(NOTIFS)
 CLOBBER_SIG = "NeverLost:modern:uri-unsubscribe-drops-list-changed"
+RESUB_SIG = "UpdatedExactlySubscribers:missing:modern:stale-unsubscribe-overtakes-resubscribe"
 
 
 # ---------------------------------------------------------------------------
@@ -104,6 +105,7 @@ def front(v, tier, seed):
     lds = [(("cache", k), "Notify_lead_cache.cfg", {"Kinds": tla_set([k])}) for k in KINDS]
     lds.append((("cache", "read"), "Notify_lead_read.cfg", {}))
     lds += [(("unsub", k), "Notify_lead_unsub.cfg", {"Kinds": tla_set([k])}) for k in NOTIFS]
+    lds.append((("resub", "u1"), "Notify_lead_resub.cfg", {}))
     for key, c, sub in lds:
         add(("lead",) + key, tlc("NotifyGen", c, cfg_text(c, **sub), workers=1, timeout=900, heap_gb=3))
     # 3. generation
@@ -323,13 +325,17 @@ def signature(f, trows, idx):
         return "Fresh:server-answer-older:%s:%s" % (kind, era)
     if clause == "NeverLost":
         if era == "modern":
-            # did a URI unsubscribe of this session remove it from the server's list-changed map?
-            prev = None
+            # did the clean-up of a cancelled URI listen stream of this session remove it from the server's
+            # list-changed map while the session stayed connected?
+            prev, unsubbed = None, False
             for r in trows[:idx + 1]:
-                if r.get("ev") != "step":
+                if r.get("ev") == "unsub.begin" and r.get("s") == s:
+                    unsubbed = True
+                if r.get("ev") not in ("step", "quiesce"):
                     continue
-                cur = s in (r.get("snap", {}).get("lsub", {}).get(x) or [])
-                if r.get("op") == "unsubscribe" and r.get("a1") == s and r.get("applied") and prev and not cur:
+                sn = r.get("snap", {})
+                cur = s in (sn.get("lsub", {}).get(x) or [])
+                if prev and not cur and unsubbed and s in (sn.get("sessions") or []):
                     return CLOBBER_SIG
                 prev = cur
         return "NeverLost:%s:%s" % (era, ops_pattern(trows, idx, x))
@@ -342,6 +348,14 @@ def signature(f, trows, idx):
         return "NoneWhenDisabled:%s:%s" % (x, era)
     if clause == "UpdatedExactlySubscribers":
         why = ""
+        if x == "missing":
+            # did the clean-up of an earlier, cancelled subscription run after the session had subscribed again?
+            u = e.get("u")
+            subs = [r["seq"] for r in trows[:idx] if r.get("ev") == "sub.end" and r.get("s") == s and r.get("u") == u and r.get("ok")]
+            exits = [r["seq"] for r in trows[:idx] if r.get("ev") == "srv.unsub.exit" and r.get("s") == s and r.get("u") == u]
+            unsubs = [r["seq"] for r in trows[:idx] if r.get("ev") == "unsub.begin" and r.get("s") == s and r.get("u") == u]
+            if subs and unsubs and exits and unsubs[-1] < subs[-1] < exits[-1]:
+                why = ":stale-unsubscribe-overtakes-resubscribe"
         if x == "extra":
             closed = any(r.get("ev") == "close.begin" and r.get("s") == s for r in trows[:idx])
             unsub = any(r.get("ev") == "unsub.begin" and r.get("s") == s for r in trows[:idx])
@@ -409,7 +423,7 @@ def run(tier, seed, replay):
                 uris = ["u1"] if k == "read" else []
                 sc = concretise("lead.cache.%s" % k, "lead", steps_of(p), rng, ["M1"], ["M1"], 60000, [], uris)
             else:
-                sc = concretise("lead.unsub.%s" % k, "lead", steps_of(p), rng, ["M1"], ["M1"], 0, [], ["u1"])
+                sc = concretise("lead.%s.%s" % (fam, k), "lead", steps_of(p), rng, ["M1"], ["M1"], 0, [], ["u1"])
             lead_of[sc["id"]] = clause
             scen.append(sc)
         # generated behaviours
